@@ -5,7 +5,7 @@ use crate::q::Q;
 use crate::refnet::{RLayer, RefNet, Rows};
 use crate::regions::{AffMap, Config, FnSide, Form};
 use crate::report::{catch, par_cases, CaseOut, Report, Tier, Violation};
-use crate::snap::{conform, snap, TreeSide};
+use crate::snap::{conform_face, snap, TreeSide};
 use affinitree::distill::schema;
 use affinitree::linalg::affine::Polytope;
 use affinitree::pwl::afftree::AffTree;
@@ -24,14 +24,15 @@ pub enum Case {
     ClassChar(usize, usize),
     InfNorm(usize, Option<f64>, Option<f64>),
     FromPoly { rows: Vec<(Vec<f64>, f64)>, f_true: Aff, f_false: Option<Aff> },
-    Slice { tree: TSpec, refpt: Vec<Option<f64>> },
+    /// `elim`: run infeasible_elimination between compose and remove_axes (arena with holes)
+    Slice { tree: TSpec, refpt: Vec<Option<f64>>, elim: bool },
 }
 
 impl Case {
     fn describe(&self) -> Value {
         match self {
             Case::FromPoly { rows, f_true, f_false } => json!({"from_poly": {"rows": rows, "f_true": f_true.to_json(), "f_false": f_false.as_ref().map(|a| a.to_json())}}),
-            Case::Slice { tree, refpt } => json!({"from_slice_compose_remove_axes": {"tree": tree.to_json(), "reference_point(null=NaN)": refpt}}),
+            Case::Slice { tree, refpt, elim } => json!({"from_slice_compose_remove_axes": {"tree": tree.to_json(), "reference_point(null=NaN)": refpt, "infeasible_elimination_before_remove_axes": elim}}),
             o => json!(format!("{:?}", o)),
         }
     }
@@ -86,7 +87,7 @@ pub fn poly_grid(dim: usize, tier: Tier) -> Vec<Vec<(Vec<f64>, f64)>> {
 
 pub fn cases(tier: Tier) -> Vec<Case> {
     let mut v = vec![];
-    let maxdim = match tier { Tier::Quick => 3, Tier::Thorough => 4 };
+    let maxdim = match tier { Tier::Quick => 4, Tier::Thorough => 5 };
     for dim in 1..=maxdim {
         for row in 0..dim {
             v.push(Case::Relu(dim, row));
@@ -116,7 +117,7 @@ pub fn cases(tier: Tier) -> Vec<Case> {
             }
         }
     }
-    let maxam = match tier { Tier::Quick => 4, Tier::Thorough => 5 };
+    let maxam = match tier { Tier::Quick => 5, Tier::Thorough => 6 };
     for dim in 2..=maxam {
         v.push(Case::Argmax(dim));
         for c in 0..dim {
@@ -172,7 +173,10 @@ pub fn cases(tier: Tier) -> Vec<Case> {
             vec![None, None], vec![Some(0.0), None], vec![None, Some(0.0)], vec![Some(1.0), None], vec![None, Some(-0.5)],
             vec![Some(0.5), Some(0.5)], vec![Some(0.0), Some(0.0)], vec![Some(2.0), Some(1.0)],
         ] {
-            v.push(Case::Slice { tree: t.clone(), refpt });
+            v.push(Case::Slice { tree: t.clone(), refpt: refpt.clone(), elim: false });
+            if t.n_nodes() >= 3 {
+                v.push(Case::Slice { tree: t.clone(), refpt, elim: true });
+            }
         }
     }
     v
@@ -235,13 +239,16 @@ pub fn run_case(c: &Case) -> CaseOut {
             });
             (t, Box::new(side) as _, n)
         }
-        Case::Slice { tree, refpt } => {
+        Case::Slice { tree, refpt, elim } => {
             let orig: AffTree<2> = tree.build::<2>();
             let so = snap(&orig);
             let n = refpt.len();
             let rp = Array1::from(refpt.iter().map(|v| v.unwrap_or(f64::NAN)).collect::<Vec<_>>());
             let mut s = AffTree::<2>::from_slice(&rp);
             s.compose::<false, false>(&orig);
+            if *elim {
+                s.infeasible_elimination();
+            }
             let mask = Array1::from(refpt.iter().map(|v| v.is_none()).collect::<Vec<_>>());
             s.remove_axes(&mask).expect("remove_axes");
             // embedding of the kept axes
@@ -300,10 +307,12 @@ pub fn run_case(c: &Case) -> CaseOut {
     let mut conf = 0u64;
     let mut conf_err = None;
     let exact_vals = !matches!(c, Case::HardSigmoid(..));
-    let o = refine(n, &imp, rf.as_ref(), &cfg, &mut out, &mut |face, _, _| match conform(&tree, &s, &face.w, exact_vals) {
-        Ok(true) => conf += 1,
-        Ok(false) => {}
-        Err(e) => conf_err = Some(e),
+    let o = refine(n, &imp, rf.as_ref(), &cfg, &mut out, &mut |face, _, _| {
+        let (n, e) = conform_face(&tree, &s, face, exact_vals);
+        conf += n;
+        if let Some(e) = e {
+            conf_err = Some(e)
+        }
     });
     out.add("traces_validated_against_impl", conf);
     if let Some(e) = conf_err {
@@ -333,8 +342,8 @@ pub fn run(tier: Tier) -> Report {
     let total = par_cases(&cs, |_, c| run_case(c));
     rep.absorb(total);
     rep.set("bound", match tier {
-        Tier::Quick => "activation generators dims 1..3 x every row x parameter grids; argmax/class dims 2..4; inf_norm bound grid; from_poly over 1-2 dim polytopes with <=3 rows incl. zero rows; from_slice/compose/remove_axes over 2-dim trees with <=5 nodes x 8 NaN patterns",
-        Tier::Thorough => "same with dims 1..4, argmax/class 2..5, full 3-row polytope grid, trees with <=7 nodes",
+        Tier::Quick => "activation generators dims 1..4 x every row x parameter grids; argmax/class dims 2..5; inf_norm bound grid; from_poly over 1-2 dim polytopes with <=3 rows incl. zero rows; from_slice/compose/remove_axes over 2-dim trees with <=5 nodes x 8 NaN patterns",
+        Tier::Thorough => "same with dims 1..4, argmax/class 2..5, full 3-row polytope grid, trees with <= 7 nodes (dims 1..5, argmax 2..6)",
     });
     rep.assume("textbook definitions: leaky: x>0?x:alpha*x; hard_tanh: clamp; hard_shrink: |x|>lambda?x:0; hard_sigmoid: 0 / x/6+1/2 / 1 with breakpoints -3,3; threshold: x>theta?x:value; argmax: first maximal index");
     rep.assume("parameters are the f64 values passed in (0.1 means the double 0.1); only 1/6 in hard_sigmoid is compared to 1 ulp");
